@@ -32,9 +32,10 @@ Definition a_kcount (t : RtrV.Spki.SpkiModel.spki_table) : Z := RtrV.Spki.Hashli
 Definition a_trecords := RtrV.Pfx.PfxTable.trecords.
 Definition a_empty := RtrV.Pfx.PfxTable.empty_table.
 Definition a_t4 := RtrV.Pfx.PfxTable.t4.
+Definition a_size := RtrV.Pfx.TrieModel.size.
 Definition a_arm := OpsA.arm.
 Definition a_init_ast : ast := mkA None 0 [HSeg; HSeg] [] false.
 
 Extraction "c18_model.ml" real_hash real_hash_defined real_bit0 real_incr a_tadd a_tremove a_tsrc_remove a_tfree a_tvalidate
   a_tchildren a_kadd a_kremove a_ksrc_remove a_kget a_kski a_kfree_init a_krelease a_sync a_kinit a_kcontents a_kcount
-  a_trecords a_empty a_t4 a_arm a_init_ast mkV as_is repaired.
+  a_trecords a_empty a_t4 a_size a_arm a_init_ast mkV as_is repaired.
